@@ -30,6 +30,7 @@ type File struct {
 	Sep0    bool     `json:"sep0"` // first document starts with ---
 	Comment string   `json:"comment,omitempty"`
 	Name    string   `json:"name"`
+	Arg     string   `json:"arg,omitempty"` // the spelling of the path given on the command line (./f0.yaml, sub/../f0.yaml); filename reports it as given
 	JSON    bool     `json:"json,omitempty"` // a JSON stream: values one after the other, no separators
 }
 
@@ -45,6 +46,13 @@ type Case struct {
 func yamlOf(v *model.Value) string {
 	// JSON flow text is YAML; keep it on one line
 	return v.JSON() + "\n"
+}
+
+func (f File) arg() string {
+	if f.Arg != "" {
+		return f.Arg
+	}
+	return f.Name
 }
 
 func (f File) text() string {
@@ -77,6 +85,9 @@ func genCase(t *rapid.T) Case {
 		f := File{Name: fmt.Sprintf("f%d.yaml", i), Sep0: rapid.Bool().Draw(t, "sep0")}
 		if allJSON {
 			f.JSON, f.Name, f.Sep0 = true, fmt.Sprintf("f%d.json", i), false
+		}
+		if rapid.IntRange(0, 3).Draw(t, "argspelling") == 0 {
+			f.Arg = rapid.SampledFrom([]string{"./", ".//", "sub/../", "./sub/.././"}).Draw(t, "argpre") + f.Name
 		}
 		nd := rapid.IntRange(0, 3).Draw(t, "ndocs")
 		if nf == 1 && nd == 0 {
@@ -144,7 +155,7 @@ const runLimit = 60 * time.Second
 
 func workdir() string {
 	d := filepath.Join(hx.WorkDir(), "c10")
-	_ = os.MkdirAll(d, 0o755)
+	_ = os.MkdirAll(filepath.Join(d, "sub"), 0o755)
 	return d
 }
 
@@ -165,7 +176,7 @@ func check(c Case) hx.Verdict {
 		if err := os.WriteFile(p, []byte(f.text()), 0o644); err != nil {
 			return hx.Disc("write")
 		}
-		names = append(names, f.Name)
+		names = append(names, f.arg())
 		total += len(f.Docs)
 	}
 	pre := []string{}
@@ -253,7 +264,7 @@ func check(c Case) hx.Verdict {
 		var want []*model.Value
 		for fi, f := range c.Files {
 			for di := range f.Docs {
-				want = append(want, model.NewSeq(model.NewInt(int64(di)), model.NewInt(int64(fi)), model.NewStr(f.Name)))
+				want = append(want, model.NewSeq(model.NewInt(int64(di)), model.NewInt(int64(fi)), model.NewStr(f.arg())))
 			}
 		}
 		if c.EvalAll {
@@ -344,8 +355,8 @@ func check(c Case) hx.Verdict {
 				emptyOperand = emptyOperand || len(res) == 0
 			}
 		})
-		a := run([]string{"-o=json", "-I=0", "--expression", c.Expr, c.Files[0].Name})
-		b := run([]string{"ea", "-o=json", "-I=0", "--expression", c.Expr, c.Files[0].Name})
+		a := run([]string{"-o=json", "-I=0", "--expression", c.Expr, c.Files[0].arg()})
+		b := run([]string{"ea", "-o=json", "-I=0", "--expression", c.Expr, c.Files[0].arg()})
 		if crashed(a) || crashed(b) {
 			return hx.Bad("panic-site:binary", "yq crashed: %s", c.Expr)
 		}
